@@ -196,9 +196,10 @@ def new_atom(ctx, rid, f, cls, rule_pred_term):
     oks = False
     for l in loops:
         v = l['slots']['var'].get('name')
+        bnd = l['slots']['var'].get('bindings') or [None]
         calls = [canon(m, env) for m in walk(l['slots']['body']) if m.get('callee_name') == cls + '::store_variables']
         cond = any(m.get('k') in ('IfStmt', 'BreakStmt', 'ContinueStmt') for m in walk(l['slots']['body']))
-        if calls and not cond and 'get_atom' in show(calls[0][3]) and show(calls[0][4]) in ('(. %s first)' % v,):
+        if calls and not cond and 'get_atom' in show(calls[0][3]) and show(calls[0][4]) in ('(. %s first)' % v, str(bnd[0])):
             oks = True
     ctx.instance(rid, [f.id, 'store-all'], {'ordering_variables_against_every_atom': oks})
     if not oks:
